@@ -190,7 +190,15 @@ fn exec_line(rec: &mut Recorder, inst: &mut Option<Inst>, line: &str) {
         }),
         (["tick"], Some(i)) => {
             let before: u64 = i.df.current_tick().into();
-            i.df.run_tick_sync();
+            let df = &mut i.df;
+            if let Err(msg) = hv_common::catch(std::panic::AssertUnwindSafe(|| {
+                df.run_tick_sync();
+            })) {
+                rec.check(false, "tick-panicked", &format!("prog={} panic: {}", i.dsl, msg.chars().take(120).collect::<String>()));
+                rec.line(line, "panic");
+                *inst = None;
+                return;
+            }
             let after: u64 = i.df.current_tick().into();
             let outs = i.collect(before, after);
             let s2 = std::mem::take(&mut i.pending2);
